@@ -905,7 +905,7 @@ func (h *v7Harness) header(n int) string {
 		return 0
 	}
 	c := h.cfg
-	return fmt.Sprintf("hist %d %d %d %d %d %d %d %d %d %d %d %d", c.resetEnd, c.parallel, c.ctx, c.batch, b(c.multi), b(c.canShift), c.vocab, c.eosMod, b(c.stopEarliest), b(c.crCounted), c.window, n)
+	return fmt.Sprintf("hist %d %d %d %d %d %d %d %d %d %d %d %d %d", c.resetEnd, c.parallel, c.ctx, c.batch, b(c.multi), b(c.canShift), c.vocab, c.eosMod, b(c.stopEarliest), b(c.crCounted), c.window, len(h.cache.Causal.VerifC07Cells()), n)
 }
 
 // run executes events drawn from next() until it returns nil or a step fails.
@@ -916,6 +916,13 @@ func (h *v7Harness) run(next func() *v7Event) {
 			break
 		}
 		time.Sleep(time.Millisecond) // fake time: one tick per event (also keeps F22 out of the way)
+		// records of idle slots before the event (records of different slots never share storage)
+		idleRec := map[int]string{}
+		for i := range h.srv.cache.slots {
+			if sl := &h.srv.cache.slots[i]; !sl.InUse {
+				idleRec[i] = v7Ints(v7Toks(sl.Inputs))
+			}
+		}
 		var o string
 		cont := true
 		func() {
@@ -940,6 +947,11 @@ func (h *v7Harness) run(next func() *v7Event) {
 			}
 		}()
 		h.events = append(h.events, e.String())
+		for i, was := range idleRec {
+			if sl := &h.srv.cache.slots[i]; !sl.InUse && v7Ints(v7Toks(sl.Inputs)) != was {
+				h.l2("record-aliasing", fmt.Sprintf("a %s event changed the record of idle slot %d from %s to %s", e.kind, i, was, v7Ints(v7Toks(sl.Inputs))))
+			}
+		}
 		if cont {
 			h.checkCoherent("after " + e.kind)
 			o += " {" + h.state() + "}"
@@ -1149,7 +1161,7 @@ func (h *v7Harness) stats() {
 
 func v7ParseHist(line string) (v7Cfg, []*v7Event) {
 	f := strings.Fields(line)
-	if len(f) < 13 || f[0] != "hist" {
+	if len(f) < 14 || f[0] != "hist" {
 		panic("bad hist line")
 	}
 	at := func(i int) int {
@@ -1161,8 +1173,8 @@ func v7ParseHist(line string) (v7Cfg, []*v7Event) {
 	}
 	c := v7Cfg{resetEnd: at(1), parallel: at(2), ctx: at(3), batch: at(4), multi: at(5) != 0, canShift: at(6) != 0, vocab: at(7), eosMod: at(8)}
 	c.window = at(11)
-	n := at(12)
-	i := 13
+	n := at(13) // f[12] = number of cells, re-read from the real cache
+	i := 14
 	var evs []*v7Event
 	list := func() []int {
 		k := at(i)
